@@ -78,9 +78,10 @@ def r13_1_2_4(chk):
     from . import c11
     acc_f = ix.get_method("SourceDataWrapper", "__getitem__")
     gi = chk.summary(acc_f)
-    win = ("slice", A(SELF, "_from_idx"), A(SELF, "_to_idx"), NONE)
+    win_ = c11._Window(chk, ix.get_class("SourceDataWrapper"))
     rets = [t for _, t, _ in gi.returns]
-    chk.require(bool(rets) and all(t[0] == "sub" and t[2] == win for t in rets), "R13.1", "accessor-applies-window",
+    chk.require(bool(rets) and all(t[0] == "sub" and win_.is_whole_window(t[2], gi.props) for t in rets), "R13.1",
+                "accessor-applies-window",
                 "the accessor used for the statistics does not apply the row window", acc_f.where)
     # R13.2: user values win - each store happens only where the target was found unset
     seen = set()
